@@ -1,1 +1,1627 @@
-fn main(){}
+//! C15 — a call's result depends only on its arguments, not on earlier or nested calls.
+//!
+//! Differential oracle on the real code. An alphabet of calls (each a closed
+//! program over the public API returning a canonical outcome: values, error
+//! kind + line/column + message, pointer-sharing classes, budget report,
+//! emitted text) is executed
+//!   * alone on a fresh thread                     -> the call's *baseline*;
+//!   * as a member of every history of length <= 3 (quick) / <= 4 (thorough)
+//!     over the core alphabet, every pair over the full table, and seeded random
+//!     histories up to length 20 — each history on its own fresh thread; every
+//!     call's outcome must equal its baseline;
+//!   * nested inside another type's `Deserialize` impl: the outer call with the
+//!     real nested call(s) must equal the same outer call whose nested calls are
+//!     replaced by their constant (baseline) results, and every nested call's own
+//!     outcome must equal its baseline;
+//!   * repeatedly (fresh threads, and fresh *processes* for the hash seeds).
+//! Two probe calls expose leaked thread-local state at the API boundary only:
+//! a `Deserialize` impl that immediately returns `Error::missing_field` (its
+//! location is `None` on a clean thread, stale otherwise) and `RcAnchor`/weak/
+//! recursive parses that re-use anchor id 1 with a different value or type.
+//! No "state is empty" probe stricter than the property is used.
+//!
+//! Signatures: `C15:history:<call>:<path of first difference>` (history dependence),
+//! `C15:nested-parse-clears-outer-anchor-store` (outer result is the constant-mode result with
+//! anchor-table entries lost: finer sharing partition with equal values, or a weak / recursive
+//! alias-side wrapper that no longer finds the anchor defined before the nested call),
+//! `C15:nested-call-sees-outer-fallback-location` (nested call's error = fresh-thread error plus
+//! a location where the fresh-thread error has none), `C15:nested-call-differs:..`,
+//! `C15:nested-outer-differs:..`, `C15:nondeterministic..`, `C15:within-call-state:<call>`
+//! (baseline of a successful parse is not the documented value/sharing), `C15:panic:<site>`.
+//!
+//! Hash-map iteration order is never part of an outcome (all targets are
+//! ordered: structs, Vec).
+
+use serde::de::{self, DeserializeOwned, Deserializer, MapAccess, Visitor};
+use serde::{Deserialize, Serialize};
+use serde_json::{Value, json};
+use serde_saphyr::{
+    ArcAnchor, ArcWeakAnchor, Budget, Error, Options, RcAnchor, RcRecursion, RcRecursive, RcWeakAnchor,
+};
+use std::cell::{Cell, RefCell};
+use std::collections::HashMap;
+use std::fmt;
+use std::rc::Rc;
+use std::sync::{Arc, Mutex, OnceLock};
+use vcore::rng::{Rng, fnv_parts};
+use vcore::run::{Finish, Run, Tier, par_range};
+
+// ------------------------------------------------------------------ outcomes
+
+fn err_json(e: &Error) -> Value {
+    let msg: String = e.without_snippet().to_string().chars().take(240).collect();
+    json!({"err": {
+        "kind": vcore::errs::kind(e),
+        "loc": vcore::errs::line_col(e).map(|(l, c)| vec![l, c]),
+        "msg": msg,
+    }})
+}
+
+fn classes(ptrs: impl IntoIterator<Item = usize>) -> Vec<usize> {
+    let mut seen: Vec<usize> = Vec::new();
+    ptrs.into_iter()
+        .map(|p| match seen.iter().position(|q| *q == p) {
+            Some(i) => i,
+            None => {
+                seen.push(p);
+                seen.len() - 1
+            }
+        })
+        .collect()
+}
+
+fn custom_err(msg: &str) -> Error {
+    <Error as de::Error>::custom(msg)
+}
+
+// ------------------------------------------------------------------ call model
+
+/// A call of the alphabet: a base call of the table, or an outer parse of kind
+/// `k` through entry point `e` whose `Deserialize` impl performs the listed
+/// calls (nested) in the middle of the outer document.
+#[derive(Clone, Debug, PartialEq, Eq, Hash, PartialOrd, Ord)]
+enum Call {
+    Base(usize),
+    Nest(usize, usize, Vec<Call>),
+}
+
+impl Call {
+    /// Encoding used inside the outer YAML document (double-quoted scalar) and in replay files.
+    fn enc(&self) -> String {
+        match self {
+            Call::Base(i) => i.to_string(),
+            Call::Nest(k, e, inner) => format!("N{k}.{e}({})", enc_list(inner)),
+        }
+    }
+    fn name(&self) -> String {
+        match self {
+            Call::Base(i) => table()[*i].name.clone(),
+            Call::Nest(k, e, _) => format!("nest-{}@{}", NEST_KINDS[*k], ENTRIES[*e]),
+        }
+    }
+    fn depth(&self) -> usize {
+        match self {
+            Call::Base(_) => 0,
+            Call::Nest(_, _, v) => 1 + v.iter().map(|c| c.depth()).max().unwrap_or(0),
+        }
+    }
+}
+
+fn enc_list(v: &[Call]) -> String {
+    v.iter().map(|c| c.enc()).collect::<Vec<_>>().join(",")
+}
+
+fn parse_list(s: &str) -> Option<Vec<Call>> {
+    let b = s.as_bytes();
+    let mut pos = 0;
+    let v = parse_list_at(b, &mut pos)?;
+    if pos == b.len() { Some(v) } else { None }
+}
+
+fn parse_list_at(b: &[u8], pos: &mut usize) -> Option<Vec<Call>> {
+    let mut out = Vec::new();
+    if *pos >= b.len() || b[*pos] == b')' {
+        return Some(out);
+    }
+    loop {
+        out.push(parse_call_at(b, pos)?);
+        if *pos < b.len() && b[*pos] == b',' {
+            *pos += 1;
+        } else {
+            return Some(out);
+        }
+    }
+}
+
+fn parse_num(b: &[u8], pos: &mut usize) -> Option<usize> {
+    let st = *pos;
+    while *pos < b.len() && b[*pos].is_ascii_digit() {
+        *pos += 1;
+    }
+    std::str::from_utf8(&b[st..*pos]).ok()?.parse().ok()
+}
+
+fn parse_call_at(b: &[u8], pos: &mut usize) -> Option<Call> {
+    if *pos < b.len() && b[*pos] == b'N' {
+        *pos += 1;
+        let k = parse_num(b, pos)?;
+        if b.get(*pos) != Some(&b'.') {
+            return None;
+        }
+        *pos += 1;
+        let e = parse_num(b, pos)?;
+        if b.get(*pos) != Some(&b'(') {
+            return None;
+        }
+        *pos += 1;
+        let inner = parse_list_at(b, pos)?;
+        if b.get(*pos) != Some(&b')') {
+            return None;
+        }
+        *pos += 1;
+        if k >= NEST_KINDS.len() || e >= ENTRIES.len() {
+            return None;
+        }
+        Some(Call::Nest(k, e, inner))
+    } else {
+        let i = parse_num(b, pos)?;
+        if i >= table().len() {
+            return None;
+        }
+        Some(Call::Base(i))
+    }
+}
+
+thread_local! {
+    /// true: nested calls are replaced by their constant (baseline) results.
+    static CONST_MODE: Cell<bool> = const { Cell::new(false) };
+    /// outcomes of the nested calls performed by the innermost running outer call
+    static INNER_LOG: RefCell<Vec<Value>> = const { RefCell::new(Vec::new()) };
+    /// iterator kept alive across the following calls of a history (harness state only)
+    static HELD_ITER: RefCell<Option<HeldIter>> = const { RefCell::new(None) };
+    /// number of real nested executions on this thread (evidence)
+    static NESTED_EXECS: Cell<u64> = const { Cell::new(0) };
+}
+
+type HeldIter = Box<dyn Iterator<Item = Result<Vec<RcAnchor<String>>, Error>>>;
+
+fn baselines() -> &'static Mutex<HashMap<Call, Value>> {
+    static B: OnceLock<Mutex<HashMap<Call, Value>>> = OnceLock::new();
+    B.get_or_init(|| Mutex::new(HashMap::new()))
+}
+
+/// Run `f` on a brand-new thread (clean thread-locals of the library and of the harness).
+fn fresh<T: Send>(f: impl FnOnce() -> T + Send) -> T {
+    std::thread::scope(|s| {
+        std::thread::Builder::new()
+            .stack_size(32 << 20)
+            .spawn_scoped(s, f)
+            .expect("spawn fresh thread")
+            .join()
+            .expect("fresh thread must not die (panics are caught inside exec)")
+    })
+}
+
+/// Baseline of a call: its outcome as the first and only call on a fresh thread (real mode).
+fn baseline(c: &Call) -> Value {
+    if let Some(v) = baselines().lock().unwrap().get(c) {
+        return v.clone();
+    }
+    let v = fresh(|| exec(c));
+    baselines().lock().unwrap().entry(c.clone()).or_insert(v).clone()
+}
+
+/// Execute one call; a panic that escapes the call is an outcome of its own.
+fn exec(c: &Call) -> Value {
+    match vcore::obs::catch(|| match c {
+        Call::Base(i) => (table()[*i].f)(),
+        Call::Nest(k, e, inner) => run_nest(*k, *e, inner),
+    }) {
+        Ok(v) => v,
+        Err(p) => json!({"lib_panic": p}),
+    }
+}
+
+// ------------------------------------------------------------------ entry points
+
+const ENTRIES: &[&str] = &[
+    "from_str",
+    "from_slice",
+    "from_reader",
+    "from_multiple",
+    "from_slice_multiple",
+    "read",
+    "with_deserializer_from_str",
+    "with_deserializer_from_slice",
+    "with_deserializer_from_reader",
+    "from_str_valid",
+    "from_slice_valid",
+    "from_reader_valid",
+    "from_multiple_valid",
+    "read_valid",
+    "from_str_validate",
+    "from_slice_validate",
+    "from_reader_validate",
+    "from_multiple_validate",
+    "read_validate",
+];
+
+trait Tgt: DeserializeOwned + garde::Validate<Context = ()> + validator::Validate {}
+
+macro_rules! impl_tgt {
+    ($($t:ty),*) => {$(
+        impl garde::Validate for $t {
+            type Context = ();
+            fn validate_into(&self, _: &(), _: &mut dyn FnMut() -> garde::Path, _: &mut garde::Report) {}
+        }
+        impl validator::Validate for $t {
+            fn validate(&self) -> Result<(), validator::ValidationErrors> { Ok(()) }
+        }
+        impl Tgt for $t {}
+    )*};
+}
+
+fn parse_via<T: Tgt>(e: usize, doc: &str) -> Result<T, Error> {
+    fn one<T>(r: Result<Vec<T>, Error>) -> Result<T, Error> {
+        r.and_then(|v| v.into_iter().next().ok_or_else(|| custom_err("harness: stream had no document")))
+    }
+    fn first<T>(mut it: impl Iterator<Item = Result<T, Error>>) -> Result<T, Error> {
+        // iterator dropped right after the first item
+        it.next().unwrap_or_else(|| Err(custom_err("harness: iterator had no item")))
+    }
+    let bytes = doc.as_bytes();
+    match e {
+        0 => serde_saphyr::from_str(doc),
+        1 => serde_saphyr::from_slice(bytes),
+        2 => serde_saphyr::from_reader(bytes),
+        3 => one(serde_saphyr::from_multiple(doc)),
+        4 => one(serde_saphyr::from_slice_multiple(bytes)),
+        5 => {
+            let mut rd = bytes;
+            first(serde_saphyr::read::<_, T>(&mut rd))
+        }
+        6 => serde_saphyr::with_deserializer_from_str(doc, |de| T::deserialize(de)),
+        7 => serde_saphyr::with_deserializer_from_slice(bytes, |de| T::deserialize(de)),
+        8 => serde_saphyr::with_deserializer_from_reader(bytes, |de| T::deserialize(de)),
+        9 => serde_saphyr::from_str_valid(doc),
+        10 => serde_saphyr::from_slice_valid(bytes),
+        11 => serde_saphyr::from_reader_valid(bytes),
+        12 => one(serde_saphyr::from_multiple_valid(doc)),
+        13 => {
+            let mut rd = bytes;
+            first(serde_saphyr::read_valid::<_, T>(&mut rd))
+        }
+        14 => serde_saphyr::from_str_validate(doc),
+        15 => serde_saphyr::from_slice_validate(bytes),
+        16 => serde_saphyr::from_reader_validate(bytes),
+        17 => one(serde_saphyr::from_multiple_validate(doc)),
+        18 => {
+            let mut rd = bytes;
+            first(serde_saphyr::read_validate::<_, T>(&mut rd))
+        }
+        _ => Err(custom_err("harness: unknown entry point")),
+    }
+}
+
+// ------------------------------------------------------------------ target types
+
+#[derive(Deserialize, Serialize, Debug, Clone, PartialEq)]
+struct Pt {
+    x: i32,
+    y: i32,
+}
+
+#[derive(Deserialize, Debug)]
+#[allow(dead_code)]
+struct Pt3 {
+    x: i32,
+    y: i32,
+    z: i32,
+}
+
+#[derive(Deserialize)]
+struct SharedDoc {
+    first: RcAnchor<String>,
+    items: Vec<RcAnchor<String>>,
+    tail: RcAnchor<String>,
+}
+impl_tgt!(SharedDoc);
+
+const SHARED_OK: &str = "first: &a x\nitems: [*a, &b y, *b, plain, &c x]\ntail: *b\n";
+/// fails inside an anchored node (a sequence where `RcAnchor<String>` expects a scalar), after
+/// two anchors were stored and one alias was served
+const SHARED_FAIL: &str = "first: &a x\nitems: [*a, &b y, *b, &c [1, 2]]\ntail: *b\n";
+
+fn strs_out<'a>(all: impl IntoIterator<Item = &'a RcAnchor<String>>) -> Value {
+    let all: Vec<&RcAnchor<String>> = all.into_iter().collect();
+    json!({
+        "values": all.iter().map(|a| (*a.0).clone()).collect::<Vec<String>>(),
+        "classes": classes(all.iter().map(|a| Rc::as_ptr(&a.0) as usize)),
+    })
+}
+
+fn shared_out(r: Result<SharedDoc, Error>) -> Value {
+    match r {
+        Ok(d) => json!({"ok": strs_out(std::iter::once(&d.first).chain(d.items.iter()).chain(std::iter::once(&d.tail)))}),
+        Err(e) => err_json(&e),
+    }
+}
+
+fn vec_out(r: Result<Vec<RcAnchor<String>>, Error>) -> Value {
+    match r {
+        Ok(v) => json!({"ok": strs_out(v.iter())}),
+        Err(e) => err_json(&e),
+    }
+}
+
+// --- Arc
+#[derive(Deserialize)]
+struct ArcDoc {
+    strong: Vec<ArcAnchor<Pt>>,
+    weak: ArcWeakAnchor<Pt>,
+}
+
+// --- weak probe
+#[derive(Deserialize)]
+#[allow(dead_code)]
+struct WeakOnly {
+    w: RcWeakAnchor<String>,
+}
+
+// --- alias replayed into a stricter type
+#[derive(Deserialize)]
+#[allow(dead_code)]
+struct ReplayStrict {
+    a: RcAnchor<Pt>,
+    b: Pt3,
+}
+
+// --- recursive
+#[derive(Deserialize)]
+struct King {
+    name: String,
+    coronator: RcRecursion<King>,
+}
+#[derive(Deserialize)]
+struct Kingdom {
+    king: RcRecursive<King>,
+}
+#[derive(Deserialize)]
+#[allow(dead_code)]
+struct KingBad {
+    name: String,
+    coronator: RcRecursion<KingBad>,
+    age: u32,
+}
+#[derive(Deserialize)]
+#[allow(dead_code)]
+struct KingdomBad {
+    king: RcRecursive<KingBad>,
+}
+
+// --- probes for the fallback location
+struct ProbeMissing;
+impl<'de> Deserialize<'de> for ProbeMissing {
+    fn deserialize<D: Deserializer<'de>>(_d: D) -> Result<Self, D::Error> {
+        Err(<D::Error as de::Error>::missing_field("probe"))
+    }
+}
+struct ProbeVariant;
+impl<'de> Deserialize<'de> for ProbeVariant {
+    fn deserialize<D: Deserializer<'de>>(_d: D) -> Result<Self, D::Error> {
+        Err(<D::Error as de::Error>::unknown_variant("probe", &["a", "b"]))
+    }
+}
+
+// --- a Deserialize impl that panics in the middle of a document: inside an
+//     anchored node, inside an RcAnchor wrapper context, after one map key was read
+struct BoomMap;
+impl<'de> Deserialize<'de> for BoomMap {
+    fn deserialize<D: Deserializer<'de>>(d: D) -> Result<Self, D::Error> {
+        struct V;
+        impl<'de> Visitor<'de> for V {
+            type Value = BoomMap;
+            fn expecting(&self, f: &mut fmt::Formatter) -> fmt::Result {
+                f.write_str("a map")
+            }
+            fn visit_map<A: MapAccess<'de>>(self, mut m: A) -> Result<BoomMap, A::Error> {
+                let _k: Option<String> = m.next_key()?;
+                panic!("c15 visitor boom");
+            }
+        }
+        d.deserialize_map(V)
+    }
+}
+#[derive(Deserialize)]
+#[allow(dead_code)]
+struct PanicDoc {
+    first: RcAnchor<String>,
+    items: Vec<RcAnchor<String>>,
+    boom: RcAnchor<BoomMap>,
+}
+
+// --- serialisation
+#[derive(Serialize)]
+struct SerDoc {
+    a: RcAnchor<String>,
+    b: RcAnchor<String>,
+    list: Vec<ArcAnchor<Pt>>,
+    w: RcWeakAnchor<String>,
+    dangling: RcWeakAnchor<String>,
+    c: RcAnchor<String>,
+}
+struct FailSer;
+impl Serialize for FailSer {
+    fn serialize<S: serde::Serializer>(&self, _s: S) -> Result<S::Ok, S::Error> {
+        Err(<S::Error as serde::ser::Error>::custom("c15 ser boom"))
+    }
+}
+#[derive(Serialize)]
+struct SerFailDoc {
+    a: RcAnchor<String>,
+    b: RcAnchor<String>,
+    f: FailSer,
+}
+
+// ------------------------------------------------------------------ nested calls
+
+/// Performs the calls listed in its scalar (nested, in the middle of the outer document).
+struct NestV;
+impl<'de> Deserialize<'de> for NestV {
+    fn deserialize<D: Deserializer<'de>>(d: D) -> Result<Self, D::Error> {
+        let s = String::deserialize(d)?;
+        let calls = parse_list(&s).ok_or_else(|| <D::Error as de::Error>::custom("harness: bad nest list"))?;
+        let constant = CONST_MODE.with(|c| c.get());
+        for c in &calls {
+            let v = if constant {
+                baseline(c)
+            } else {
+                NESTED_EXECS.with(|n| n.set(n.get() + 1));
+                exec(c)
+            };
+            INNER_LOG.with(|l| l.borrow_mut().push(v));
+        }
+        Ok(NestV)
+    }
+}
+/// Same, then fails with a serde static constructor (location comes from the fallback thread-local).
+struct NestFail;
+impl<'de> Deserialize<'de> for NestFail {
+    fn deserialize<D: Deserializer<'de>>(d: D) -> Result<Self, D::Error> {
+        NestV::deserialize(d)?;
+        Err(<D::Error as de::Error>::missing_field("after_nest"))
+    }
+}
+
+const NEST_KINDS: &[&str] = &["plain", "in-anchored-ctx", "then-fail", "weak-after", "arc", "recursive", "in-seq-of-anchors"];
+
+#[derive(Deserialize)]
+struct OuterPlain {
+    pre: RcAnchor<String>,
+    #[allow(dead_code)]
+    n: NestV,
+    post: RcAnchor<String>,
+    more: Vec<RcAnchor<String>>,
+}
+impl_tgt!(OuterPlain);
+
+#[derive(Deserialize)]
+struct Holder {
+    a: RcAnchor<String>,
+    #[allow(dead_code)]
+    n: NestV,
+    b: RcAnchor<String>,
+}
+#[derive(Deserialize)]
+struct OuterAnch {
+    head: RcAnchor<Holder>,
+    tail: RcAnchor<Holder>,
+    again: RcAnchor<String>,
+}
+
+#[derive(Deserialize)]
+#[allow(dead_code)]
+struct OuterFail {
+    pre: RcAnchor<String>,
+    n: NestFail,
+    post: RcAnchor<String>,
+}
+
+#[derive(Deserialize)]
+struct OuterWeak {
+    pre: RcAnchor<String>,
+    #[allow(dead_code)]
+    n: NestV,
+    w: RcWeakAnchor<String>,
+}
+
+#[derive(Deserialize)]
+struct OuterArc {
+    pre: ArcAnchor<String>,
+    #[allow(dead_code)]
+    n: NestV,
+    post: ArcAnchor<String>,
+    w: ArcWeakAnchor<String>,
+}
+
+#[derive(Deserialize)]
+struct King2 {
+    name: String,
+    #[allow(dead_code)]
+    n: NestV,
+    coronator: RcRecursion<King2>,
+}
+#[derive(Deserialize)]
+struct Kingdom2 {
+    king: RcRecursive<King2>,
+}
+
+#[derive(Deserialize)]
+#[serde(untagged)]
+enum SeqItem {
+    // a map {n: "<list>"} performs the nested calls; anything else is a shared string
+    N {
+        #[allow(dead_code)]
+        n: NestV,
+    },
+    S(RcAnchor<String>),
+}
+
+/// The outer document of a nested call: anchors before and aliases after the field whose
+/// `Deserialize` impl performs the nested calls.
+fn nest_doc(k: usize, inner: &[Call]) -> String {
+    let list = enc_list(inner);
+    match k {
+        0 => format!("pre: &a pv\nn: \"{list}\"\npost: *a\nmore: [&b q, *b, *a, r]\n"),
+        1 => format!("head: &h\n  a: &a pv\n  n: \"{list}\"\n  b: *a\ntail: *h\nagain: *a\n"),
+        2 => format!("pre: &a pv\nn: \"{list}\"\npost: *a\n"),
+        3 => format!("pre: &a pv\nn: \"{list}\"\nw: *a\n"),
+        4 => format!("pre: &a pv\nn: \"{list}\"\npost: *a\nw: *a\n"),
+        5 => format!("king: &root\n  name: Aurelian\n  n: \"{list}\"\n  coronator: *root\n"),
+        _ => format!("- &a pv\n- *a\n- {{n: \"{list}\"}}\n- *a\n- &b q\n- {{n: \"{list}\"}}\n- *b\n- *a\n"),
+    }
+}
+
+fn run_nest(k: usize, e: usize, inner: &[Call]) -> Value {
+    let saved = INNER_LOG.with(|l| std::mem::take(&mut *l.borrow_mut()));
+    let doc = nest_doc(k, inner);
+    let outer = match k {
+        0 => {
+            match parse_via::<OuterPlain>(e, &doc) {
+                Ok(d) => json!({"ok": strs_out(std::iter::once(&d.pre).chain(std::iter::once(&d.post)).chain(d.more.iter()))}),
+                Err(e) => err_json(&e),
+            }
+        }
+        1 => {
+            match serde_saphyr::from_str::<OuterAnch>(&doc) {
+                Ok(d) => {
+                    let mut o = strs_out([&d.head.a, &d.head.b, &d.tail.a, &d.tail.b, &d.again]);
+                    o["classes_holder"] = json!(classes([Rc::as_ptr(&d.head.0) as usize, Rc::as_ptr(&d.tail.0) as usize]));
+                    json!({"ok": o})
+                }
+                Err(e) => err_json(&e),
+            }
+        }
+        2 => {
+            match serde_saphyr::from_str::<OuterFail>(&doc) {
+                Ok(_) => json!({"ok": "unexpected"}),
+                Err(e) => err_json(&e),
+            }
+        }
+        3 => {
+            match serde_saphyr::from_str::<OuterWeak>(&doc) {
+                Ok(d) => {
+                    let up = d.w.upgrade();
+                    json!({"ok": {
+                        "values": [(*d.pre.0).clone(), up.as_ref().map(|r| (**r).clone()).unwrap_or_else(|| "<dangling>".into())],
+                        "classes": classes([Rc::as_ptr(&d.pre.0) as usize, up.as_ref().map(|r| Rc::as_ptr(r) as usize).unwrap_or(0)]),
+                    }})
+                }
+                Err(e) => err_json(&e),
+            }
+        }
+        4 => {
+            match serde_saphyr::from_str::<OuterArc>(&doc) {
+                Ok(d) => {
+                    let up = d.w.upgrade();
+                    json!({"ok": {
+                        "values": [(*d.pre.0).clone(), (*d.post.0).clone(), up.as_ref().map(|r| (**r).clone()).unwrap_or_else(|| "<dangling>".into())],
+                        "classes": classes([Arc::as_ptr(&d.pre.0) as usize, Arc::as_ptr(&d.post.0) as usize, up.as_ref().map(|r| Arc::as_ptr(r) as usize).unwrap_or(0)]),
+                    }})
+                }
+                Err(e) => err_json(&e),
+            }
+        }
+        5 => {
+            match serde_saphyr::from_str::<Kingdom2>(&doc) {
+                Ok(d) => {
+                    let king = d.king.borrow();
+                    let cor = king.coronator.upgrade();
+                    json!({"ok": {
+                        "values": [king.name.clone(), cor.as_ref().map(|c| c.borrow().name.clone()).unwrap_or_else(|| "<dangling>".into())],
+                        "classes": classes([Rc::as_ptr(&d.king.0) as usize, cor.as_ref().map(|c| Rc::as_ptr(&c.0) as usize).unwrap_or(0)]),
+                    }})
+                }
+                Err(e) => err_json(&e),
+            }
+        }
+        _ => {
+            match serde_saphyr::from_str::<Vec<SeqItem>>(&doc) {
+                Ok(v) => {
+                    let strs: Vec<&RcAnchor<String>> = v
+                        .iter()
+                        .filter_map(|i| match i {
+                            SeqItem::S(s) => Some(s),
+                            SeqItem::N { .. } => None,
+                        })
+                        .collect();
+                    json!({"ok": strs_out(strs)})
+                }
+                Err(e) => err_json(&e),
+            }
+        }
+    };
+    let mine = INNER_LOG.with(|l| std::mem::replace(&mut *l.borrow_mut(), saved));
+    json!({"outer": outer, "inner": mine})
+}
+
+// ------------------------------------------------------------------ the table of base calls
+
+struct BaseCall {
+    name: String,
+    /// member of the core alphabet (exhaustive histories)
+    core: bool,
+    /// abandons an iterator half-way
+    abandons: bool,
+    f: Box<dyn Fn() -> Value + Send + Sync>,
+}
+
+const STREAM: &str = "- &a x\n- *a\n- u\n---\n- &a y\n- *a\n- &b z\n- *b\n---\n- &c [broken\n";
+
+#[allow(deprecated)]
+fn budget_call(max_nodes: Option<usize>, replay_limit: Option<usize>, doc: &'static str) -> Value {
+    let rep: Rc<RefCell<Vec<String>>> = Rc::new(RefCell::new(Vec::new()));
+    let r2 = rep.clone();
+    let mut o = Options::default().with_budget_report(move |r| r2.borrow_mut().push(format!("{r:?}")));
+    if let Some(n) = max_nodes {
+        o.budget = Some(Budget { max_nodes: n, ..Budget::default() });
+    }
+    if let Some(n) = replay_limit {
+        o.alias_limits.max_total_replayed_events = n;
+    }
+    let r = serde_saphyr::from_str_with_options::<Vec<RcAnchor<Vec<String>>>>(doc, o);
+    let mut out = match r {
+        Ok(v) => json!({"ok": {
+            "values": v.iter().map(|a| (*a.0).clone()).collect::<Vec<_>>(),
+            "classes": classes(v.iter().map(|a| Rc::as_ptr(&a.0) as usize)),
+        }}),
+        Err(e) => err_json(&e),
+    };
+    out["report"] = json!(rep.borrow().clone());
+    out
+}
+
+const BUDGET_DOC: &str = "- &a [p, q, r]\n- *a\n- &b [s]\n- *b\n- *a\n";
+
+fn build_table() -> Vec<BaseCall> {
+    let mut t: Vec<BaseCall> = Vec::new();
+    let mut add = |name: &str, core: bool, abandons: bool, f: Box<dyn Fn() -> Value + Send + Sync>| {
+        t.push(BaseCall { name: name.to_string(), core, abandons, f });
+    };
+    // 0: successful parse with shared RcAnchors
+    add("ok-shared-rc", true, false, Box::new(|| shared_out(serde_saphyr::from_str(SHARED_OK))));
+    // 1: Arc strong + weak
+    add(
+        "ok-shared-arc",
+        true,
+        false,
+        Box::new(|| match serde_saphyr::from_str::<ArcDoc>("strong:\n  - &p {x: 1, y: 2}\n  - *p\n  - {x: 1, y: 2}\nweak: *p\n") {
+            Ok(d) => {
+                let up = d.weak.upgrade();
+                json!({"ok": {
+                    "values": d.strong.iter().map(|a| json!([a.0.x, a.0.y])).collect::<Vec<_>>(),
+                    "classes": classes(d.strong.iter().map(|a| Arc::as_ptr(&a.0) as usize).chain(std::iter::once(up.as_ref().map(|u| Arc::as_ptr(u) as usize).unwrap_or(0)))),
+                }})
+            }
+            Err(e) => err_json(&e),
+        }),
+    );
+    // 2: recursive anchors (anchor id 1 is the recursive root)
+    add(
+        "ok-recursive",
+        true,
+        false,
+        Box::new(|| match serde_saphyr::from_str::<Kingdom>("king: &root\n  name: Aurelian\n  coronator: *root\n") {
+            Ok(d) => {
+                let king = d.king.borrow();
+                let cor = king.coronator.upgrade();
+                json!({"ok": {
+                    "values": [king.name.clone(), cor.as_ref().map(|c| c.borrow().name.clone()).unwrap_or_else(|| "<dangling>".into())],
+                    "classes": classes([Rc::as_ptr(&d.king.0) as usize, cor.as_ref().map(|c| Rc::as_ptr(&c.0) as usize).unwrap_or(0)]),
+                }})
+            }
+            Err(e) => err_json(&e),
+        }),
+    );
+    // 3: parse failing midway through an anchored node
+    add(
+        "fail-in-anchored-node",
+        true,
+        false,
+        Box::new(|| match serde_saphyr::from_str::<Vec<RcAnchor<Pt>>>("- &a {x: 1, y: 2}\n- *a\n- &b {x: 3, y: oops}\n- *b\n") {
+            Ok(v) => json!({"ok": v.len()}),
+            Err(e) => err_json(&e),
+        }),
+    );
+    // 4: failing while an alias is replayed into a stricter type (serde static constructor -> fallback location)
+    add(
+        "fail-in-alias-replay",
+        true,
+        false,
+        Box::new(|| match serde_saphyr::from_str::<ReplayStrict>("a: &a {x: 1, y: 2}\nb: *a\n") {
+            Ok(_) => json!({"ok": "unexpected"}),
+            Err(e) => err_json(&e),
+        }),
+    );
+    // 5: failing inside an anchor-wrapper context: weak wrapper on anchor id 1 that no strong wrapper stored
+    add(
+        "fail-in-weak-ctx",
+        true,
+        false,
+        Box::new(|| match serde_saphyr::from_str::<WeakOnly>("w: &a x\n") {
+            Ok(d) => json!({"ok": {"upgraded": d.w.upgrade().map(|r| (*r).clone())}}),
+            Err(e) => err_json(&e),
+        }),
+    );
+    // 6: failing inside a recursive wrapper context, after the placeholder was stored
+    add(
+        "fail-in-recursive-ctx",
+        true,
+        false,
+        Box::new(|| match serde_saphyr::from_str::<KingdomBad>("king: &root\n  name: A\n  coronator: *root\n  age: notnum\n") {
+            Ok(_) => json!({"ok": "unexpected"}),
+            Err(e) => err_json(&e),
+        }),
+    );
+    // 7: budget breach (with budget report)
+    add("budget-breach", true, false, Box::new(|| budget_call(Some(6), None, BUDGET_DOC)));
+    // 8: alias replay limit breach
+    add("alias-limit-breach", true, false, Box::new(|| budget_call(None, Some(5), BUDGET_DOC)));
+    // 9: iterator abandoned after one item
+    add(
+        "iter-abandoned-after-1",
+        true,
+        true,
+        Box::new(|| {
+            let mut rd = STREAM.as_bytes();
+            let mut it = serde_saphyr::read::<_, Vec<RcAnchor<String>>>(&mut rd);
+            let a = it.next().map(vec_out);
+            drop(it);
+            json!({"items": [a]})
+        }),
+    );
+    // 10: a Deserialize impl that panics mid-document (caught)
+    add(
+        "panic-mid-document",
+        true,
+        false,
+        Box::new(|| {
+            let r = vcore::obs::catch(|| serde_saphyr::from_str::<PanicDoc>("first: &a x\nitems: [*a, &b y]\nboom: &c {k: v, k2: v2}\n"));
+            match r {
+                Err(p) => json!({"panic": p.split(" @ ").next().unwrap_or("")}),
+                Ok(Ok(_)) => json!({"ok": "unexpected"}),
+                Ok(Err(e)) => err_json(&e),
+            }
+        }),
+    );
+    // 11: serialisation with anchors
+    add(
+        "ser-anchors",
+        true,
+        false,
+        Box::new(|| {
+            let a = RcAnchor::wrapping("x".to_string());
+            let p = ArcAnchor::wrapping(Pt { x: 1, y: 2 });
+            let gone = RcAnchor::wrapping("gone".to_string());
+            let dangling = RcWeakAnchor::from(&gone);
+            drop(gone);
+            let d = SerDoc {
+                a: a.clone(),
+                b: a.clone(),
+                list: vec![p.clone(), ArcAnchor::wrapping(Pt { x: 1, y: 2 }), p.clone()],
+                w: RcWeakAnchor::from(&a),
+                dangling,
+                c: RcAnchor::wrapping("x".to_string()),
+            };
+            match serde_saphyr::to_string(&d) {
+                Ok(s) => json!({"ok": {"text": s}}),
+                Err(e) => json!({"err": {"kind": "ser", "loc": null, "msg": e.to_string()}}),
+            }
+        }),
+    );
+    // 12: probe — serde static constructor with no deserializer activity: location must be None
+    add(
+        "probe-missing-field",
+        true,
+        false,
+        Box::new(|| match serde_saphyr::from_str::<ProbeMissing>("") {
+            Ok(_) => json!({"ok": "unexpected"}),
+            Err(e) => err_json(&e),
+        }),
+    );
+    // 13: probe — anchor id 1 re-used with a different value
+    add("probe-reuse-id1-value", true, false, Box::new(|| vec_out(serde_saphyr::from_str("- &z other\n- *z\n- &y more\n- z\n"))));
+    // 14: probe — anchor id 1 re-used with a different type
+    add(
+        "probe-reuse-id1-type",
+        true,
+        false,
+        Box::new(|| match serde_saphyr::from_str::<Vec<RcAnchor<u32>>>("- &z 7\n- *z\n- 7\n") {
+            Ok(v) => json!({"ok": {
+                "values": v.iter().map(|a| *a.0).collect::<Vec<u32>>(),
+                "classes": classes(v.iter().map(|a| Rc::as_ptr(&a.0) as usize)),
+            }}),
+            Err(e) => err_json(&e),
+        }),
+    );
+    // ---- non-core (pairs, random histories, nested lists)
+    add("iter-abandoned-after-2", false, true, {
+        Box::new(|| {
+            let mut rd = STREAM.as_bytes();
+            let mut it = serde_saphyr::read::<_, Vec<RcAnchor<String>>>(&mut rd);
+            let a = it.next().map(vec_out);
+            let b = it.next().map(vec_out);
+            drop(it);
+            json!({"items": [a, b]})
+        })
+    });
+    add("iter-to-the-error", false, false, {
+        Box::new(|| {
+            let mut rd = STREAM.as_bytes();
+            let items: Vec<Value> = serde_saphyr::read::<_, Vec<RcAnchor<String>>>(&mut rd).take(6).map(vec_out).collect();
+            json!({"items": items})
+        })
+    });
+    add("budget-ok-report", false, false, Box::new(|| budget_call(Some(1000), None, BUDGET_DOC)));
+    add(
+        "probe-unknown-variant",
+        false,
+        false,
+        Box::new(|| match serde_saphyr::from_str::<ProbeVariant>("") {
+            Ok(_) => json!({"ok": "unexpected"}),
+            Err(e) => err_json(&e),
+        }),
+    );
+    add(
+        "ser-fails-midway",
+        false,
+        false,
+        Box::new(|| {
+            let a = RcAnchor::wrapping("x".to_string());
+            let d = SerFailDoc { a: a.clone(), b: a, f: FailSer };
+            match serde_saphyr::to_string(&d) {
+                Ok(s) => json!({"ok": {"text": s}}),
+                Err(e) => json!({"err": {"kind": "ser", "loc": null, "msg": e.to_string()}}),
+            }
+        }),
+    );
+    add(
+        "from-multiple-anchors",
+        false,
+        false,
+        Box::new(|| match serde_saphyr::from_multiple::<Vec<RcAnchor<String>>>("- &a x\n- *a\n---\n- &a y\n- *a\n- &b x\n") {
+            Ok(docs) => json!({"ok": strs_out(docs.iter().flatten())}),
+            Err(e) => err_json(&e),
+        }),
+    );
+    // realistic variant of the fallback probe: serde's own NonZeroU32 impl raises `invalid_value`
+    // after the scalar was consumed, at the root of a one-line document
+    add(
+        "probe-nonzero-root",
+        false,
+        false,
+        Box::new(|| match serde_saphyr::from_str::<std::num::NonZeroU32>("0") {
+            Ok(v) => json!({"ok": v.get()}),
+            Err(e) => err_json(&e),
+        }),
+    );
+    // an iterator that stays alive while the following calls of the history run (dropped with the thread)
+    add(
+        "iter-held-open",
+        false,
+        true,
+        Box::new(|| {
+            let rd: &'static mut &'static [u8] = Box::leak(Box::new(STREAM.as_bytes()));
+            let mut it = serde_saphyr::read::<_, Vec<RcAnchor<String>>>(rd);
+            let a = it.next().map(vec_out);
+            HELD_ITER.with(|h| *h.borrow_mut() = Some(it));
+            json!({"items": [a]})
+        }),
+    );
+    // second document of the stream: from the held iterator if there is one, else from a new
+    // iterator whose first item is skipped — the same iterator state either way
+    add(
+        "iter-resume-second-doc",
+        false,
+        true,
+        Box::new(|| {
+            let held = HELD_ITER.with(|h| h.borrow_mut().take());
+            let mut it = match held {
+                Some(it) => it,
+                None => {
+                    let rd: &'static mut &'static [u8] = Box::leak(Box::new(STREAM.as_bytes()));
+                    let mut it = serde_saphyr::read::<_, Vec<RcAnchor<String>>>(rd);
+                    let _ = it.next();
+                    it
+                }
+            };
+            let b = it.next().map(vec_out);
+            json!({"items": [b]})
+        }),
+    );
+    for e in 1..ENTRIES.len() {
+        add(&format!("ok-shared-rc@{}", ENTRIES[e]), false, false, Box::new(move || shared_out(parse_via(e, SHARED_OK))));
+    }
+    for e in 0..ENTRIES.len() {
+        add(&format!("fail-shared-rc@{}", ENTRIES[e]), false, false, Box::new(move || shared_out(parse_via(e, SHARED_FAIL))));
+    }
+    t
+}
+
+fn table() -> &'static Vec<BaseCall> {
+    static T: OnceLock<Vec<BaseCall>> = OnceLock::new();
+    T.get_or_init(build_table)
+}
+
+// ------------------------------------------------------------------ comparison / classification
+
+/// `Run::violation` keeps every (signature, case) key in a set it scans on each report; a defect
+/// that shows in 10^5 cases would make that quadratic. Every case is counted, the first
+/// `REPORT_CAP` per signature are handed to the run (3 witnesses are kept there anyway).
+const REPORT_CAP: u64 = 200;
+
+fn report(run: &Run, signature: &str, case: Value, detail: impl Into<String>) {
+    static SEEN: OnceLock<Mutex<HashMap<String, u64>>> = OnceLock::new();
+    let n = {
+        let mut m = SEEN.get_or_init(|| Mutex::new(HashMap::new())).lock().unwrap();
+        let e = m.entry(signature.to_string()).or_insert(0);
+        *e += 1;
+        *e
+    };
+    run.count(&format!("cases_by_signature/{signature}"), 1);
+    if n <= REPORT_CAP {
+        run.violation(signature, case, detail);
+    }
+}
+
+/// Path of the first difference between two outcomes (deterministic: object keys in sorted order).
+fn diff_path(a: &Value, b: &Value) -> Option<String> {
+    if a == b {
+        return None;
+    }
+    match (a, b) {
+        (Value::Object(x), Value::Object(y)) => {
+            let mut keys: Vec<&String> = x.keys().chain(y.keys()).collect();
+            keys.sort();
+            keys.dedup();
+            // report shape differences first (ok vs err vs panic)
+            if keys.iter().any(|k| x.contains_key(*k) != y.contains_key(*k)) {
+                let mut xs: Vec<&String> = x.keys().filter(|q| !y.contains_key(*q)).collect();
+                let mut ys: Vec<&String> = y.keys().filter(|q| !x.contains_key(*q)).collect();
+                xs.sort();
+                ys.sort();
+                return Some(format!(
+                    "{}-vs-{}",
+                    xs.first().map(|s| s.as_str()).unwrap_or("none"),
+                    ys.first().map(|s| s.as_str()).unwrap_or("none")
+                ));
+            }
+            for k in keys {
+                if let Some(p) = diff_path(&x[k], &y[k]) {
+                    return Some(format!("{k}.{p}"));
+                }
+            }
+            Some("?".into())
+        }
+        (Value::Array(x), Value::Array(y)) if x.len() == y.len() => {
+            for (i, (p, q)) in x.iter().zip(y.iter()).enumerate() {
+                if let Some(d) = diff_path(p, q) {
+                    // index only for arrays of objects (inner outcomes); scalars: no index in a signature
+                    return Some(if p.is_object() || q.is_object() { format!("{i}.{d}") } else { "value".to_string() });
+                }
+            }
+            Some("?".into())
+        }
+        (Value::Array(_), Value::Array(_)) => Some("length".into()),
+        _ => Some("value".into()),
+    }
+}
+
+/// true iff partition `fine` refines partition `coarse` (both as class-label vectors of equal length).
+fn refines(fine: &[u64], coarse: &[u64]) -> bool {
+    if fine.len() != coarse.len() {
+        return false;
+    }
+    for i in 0..fine.len() {
+        for j in 0..fine.len() {
+            if fine[i] == fine[j] && coarse[i] != coarse[j] {
+                return false;
+            }
+        }
+    }
+    true
+}
+
+fn labels(v: &Value) -> Option<Vec<u64>> {
+    v.as_array()?.iter().map(|x| x.as_u64()).collect()
+}
+
+/// The predicate of the candidate defect "nested parse clears the outer anchor store":
+/// with the nested calls' own outcomes equal, the real outer result is what the constant-mode
+/// result becomes when entries of the outer call's anchor table are lost — identical values with
+/// a strictly finer sharing partition, or an alias-side wrapper that can no longer find the
+/// strong anchor defined before the nested call.
+fn is_lost_outer_anchor_entries(constant: &Value, real: &Value) -> Option<&'static str> {
+    let (c, r) = (&constant["outer"], &real["outer"]);
+    if let (Some(co), Some(ro)) = (c.get("ok").and_then(|v| v.as_object()), r.get("ok").and_then(|v| v.as_object())) {
+        let mut strict = false;
+        if co.len() != ro.len() {
+            return None;
+        }
+        for (k, cv) in co {
+            let rv = ro.get(k)?;
+            if k.starts_with("classes") {
+                let (cl, rl) = (labels(cv)?, labels(rv)?);
+                if !refines(&rl, &cl) {
+                    return None;
+                }
+                if !refines(&cl, &rl) {
+                    strict = true;
+                }
+            } else if cv != rv {
+                return None;
+            }
+        }
+        return if strict { Some("sharing-lost") } else { None };
+    }
+    if c.get("ok").is_some()
+        && let Some(e) = r.get("err")
+    {
+        let msg = e["msg"].as_str().unwrap_or("");
+        if msg.contains("refers to unknown anchor") {
+            return Some("weak-unresolved");
+        }
+        if msg.contains("refers to unknown recursive anchor id") {
+            return Some("recursion-unresolved");
+        }
+        // live_events consults `recursive_anchor_in_progress(id)` for an alias to an anchor that is
+        // still open; the nested reset wiped the outer call's in-progress table
+        if e["kind"] == "RecursiveReferencesRequireWeakTypes" {
+            return Some("recursion-in-progress-lost");
+        }
+    }
+    None
+}
+
+fn is_failing(v: &Value) -> bool {
+    fn walk(v: &Value) -> bool {
+        match v {
+            Value::Object(m) => m.contains_key("err") || m.contains_key("panic") || m.contains_key("lib_panic") || m.values().any(walk),
+            Value::Array(a) => a.iter().any(walk),
+            _ => false,
+        }
+    }
+    walk(v)
+}
+
+fn call_interesting(c: &Call) -> bool {
+    match c {
+        Call::Nest(..) => true,
+        Call::Base(i) => table()[*i].abandons || is_failing(&baseline(c)),
+    }
+}
+
+/// Concrete content of a call for replay files: the outer document of a nested call (the nested
+/// list is inside it), the name of the fixed program for a base call.
+fn describe(c: &Call) -> Value {
+    match c {
+        Call::Base(i) => json!(table()[*i].name),
+        Call::Nest(k, e, inner) => json!({"entry": ENTRIES[*e], "outer_doc": nest_doc(*k, inner), "nested": inner.iter().map(describe).collect::<Vec<_>>()}),
+    }
+}
+
+fn hist_json(h: &[Call]) -> Value {
+    json!(h.iter().map(|c| c.enc()).collect::<Vec<_>>())
+}
+
+fn hist_names(h: &[Call]) -> Value {
+    json!(h.iter().map(|c| c.name()).collect::<Vec<_>>())
+}
+
+/// Run one history on a fresh thread and compare every call with its baseline.
+fn check_history(run: &Run, h: &[Call], phase: &str) {
+    let base: Vec<Value> = h.iter().map(baseline).collect();
+    let (outs, nested) = fresh(|| {
+        let outs: Vec<Value> = h.iter().map(exec).collect();
+        (outs, NESTED_EXECS.with(|n| n.get()))
+    });
+    run.evals(h.len() as u64);
+    if nested > 0 {
+        run.count("nested_executions", nested);
+    }
+    let mut ok = true;
+    for (i, (got, exp)) in outs.iter().zip(base.iter()).enumerate() {
+        if got != exp {
+            ok = false;
+            let path = diff_path(exp, got).unwrap_or_default();
+            let sig = if got.get("lib_panic").is_some() {
+                format!("C15:panic:{}", vcore::obs::panic_site(got["lib_panic"].as_str().unwrap_or("")))
+            } else {
+                format!("C15:history:{}:{}", h[i].name(), path)
+            };
+            report(run,
+                &sig,
+                json!({"phase": phase, "history": hist_json(h), "names": hist_names(h), "index": i, "programs": h.iter().map(describe).collect::<Vec<_>>()}),
+                format!("call #{i} ({}) after {:?}: baseline {} | in history {}", h[i].name(), hist_names(&h[..i]), exp, got),
+            );
+            break;
+        }
+    }
+    if ok {
+        run.count("histories_held", 1);
+    }
+    if h.len() >= 2 && h.iter().any(call_interesting) {
+        let encs: Vec<String> = h.iter().map(|c| c.enc()).collect();
+        let parts: Vec<&[u8]> = encs.iter().map(|s| s.as_bytes()).collect();
+        run.nontrivial(fnv_parts(&parts));
+    }
+}
+
+/// Nested transparency: outer call with real nested calls == outer call with constant results,
+/// and each nested call's own outcome == its baseline.
+fn check_nested(run: &Run, c: &Call) {
+    let Call::Nest(_, _, inner) = c else { return };
+    let constant = fresh(|| {
+        CONST_MODE.with(|m| m.set(true));
+        exec(c)
+    });
+    let real = baseline(c);
+    run.evals(2);
+    run.count("nested_pairs", 1);
+    let case = || json!({"phase": "nested", "call": c.enc(), "name": c.name(), "inner_names": hist_names(inner), "outer_doc": describe(c)});
+    // every nested call's own result must be its fresh-thread result
+    if let (Some(ci), Some(ri)) = (constant["inner"].as_array(), real["inner"].as_array()) {
+        for (j, (cv, rv)) in ci.iter().zip(ri.iter()).enumerate() {
+            if cv != rv {
+                let which = if inner.is_empty() { "?".to_string() } else { inner[j % inner.len()].name() };
+                let path = diff_path(cv, rv).unwrap_or_default();
+                let sig = if rv.get("lib_panic").is_some() {
+                    format!("C15:panic:{}", vcore::obs::panic_site(rv["lib_panic"].as_str().unwrap_or("")))
+                } else if is_outer_fallback_location_seen(cv, rv) {
+                    run.count("nested_call_sees_outer_fallback_location", 1);
+                    "C15:nested-call-sees-outer-fallback-location".to_string()
+                } else {
+                    format!("C15:nested-call-differs:{which}:{path}")
+                };
+                report(run,
+                    &sig,
+                    case(),
+                    format!("nested call #{j} ({which}) inside {}: on a fresh thread {} | nested {}", c.name(), cv, rv),
+                );
+                break;
+            }
+        }
+    }
+    if !inner.is_empty() {
+        run.nontrivial(fnv_parts(&[b"nested", c.enc().as_bytes()]));
+    }
+    // the outer call's own result must not depend on whether the nested calls really ran
+    if constant["outer"] == real["outer"] {
+        run.count("nested_pairs_outer_equal", 1);
+        return;
+    }
+    if let Some(how) = is_lost_outer_anchor_entries(&constant, &real) {
+        run.count(&format!("nested_clears_outer_store/{how}"), 1);
+        report(run,
+            "C15:nested-parse-clears-outer-anchor-store",
+            case(),
+            format!("[{how}] outer {} with nested calls replaced by their constant results: {} | with the real nested calls: {}", c.name(), constant["outer"], real["outer"]),
+        );
+    } else if real.get("lib_panic").is_some() {
+        report(run,
+            &format!("C15:panic:{}", vcore::obs::panic_site(real["lib_panic"].as_str().unwrap_or(""))),
+            case(),
+            format!("{real}"),
+        );
+    } else {
+        let path = diff_path(&constant["outer"], &real["outer"]).unwrap_or_default();
+        let Call::Nest(k, _, _) = c else { unreachable!() };
+        report(run,
+            &format!("C15:nested-outer-differs:{}:{}", NEST_KINDS[*k], path),
+            case(),
+            format!("outer {} constant-mode {} | real {}", c.name(), constant["outer"], real["outer"]),
+        );
+    }
+}
+
+/// Predicate of the second candidate defect: a nested call's error is the fresh-thread error
+/// (same kind) except that it carries a location although the fresh-thread error has none — the
+/// location of the *outer* document's current key/element, read from the fallback thread-local.
+fn is_outer_fallback_location_seen(fresh_out: &Value, nested_out: &Value) -> bool {
+    // descend to the innermost differing nested outcome (nested calls may nest themselves)
+    if let (Some(fi), Some(ni)) = (fresh_out.get("inner").and_then(|v| v.as_array()), nested_out.get("inner").and_then(|v| v.as_array()))
+        && fi.len() == ni.len()
+        && let Some((f, n)) = fi.iter().zip(ni.iter()).find(|(f, n)| f != n)
+    {
+        return fresh_out["outer"] == nested_out["outer"] && is_outer_fallback_location_seen(f, n);
+    }
+    match (fresh_out.get("err"), nested_out.get("err")) {
+        (Some(f), Some(n)) => f["kind"] == n["kind"] && f["loc"].is_null() && !n["loc"].is_null(),
+        _ => false,
+    }
+}
+
+/// Repetition: the same call on further fresh threads gives the same outcome (hash seeds of
+/// std `RandomState` differ per map instance; process-level seeds are covered by child processes).
+fn check_repeat(run: &Run, c: &Call, times: usize) {
+    let b = baseline(c);
+    for _ in 0..times {
+        let v = fresh(|| exec(c));
+        run.eval();
+        run.count("repeat_runs", 1);
+        if v != b {
+            report(run,
+                &format!("C15:nondeterministic:{}:{}", c.name(), diff_path(&b, &v).unwrap_or_default()),
+                json!({"phase": "repeat", "call": c.enc(), "name": c.name()}),
+                format!("same call, fresh threads: {b} | {v}"),
+            );
+            return;
+        }
+    }
+}
+
+fn observe_outcome(run: &Run, c: &Call, v: &Value) {
+    fn kinds(v: &Value, out: &mut Vec<String>) {
+        match v {
+            Value::Object(m) => {
+                if let Some(e) = m.get("err") {
+                    out.push(format!("{}@{}", e["kind"].as_str().unwrap_or("?"), e["loc"]));
+                }
+                if m.contains_key("panic") {
+                    out.push("caught-visitor-panic".into());
+                }
+                if m.contains_key("lib_panic") {
+                    out.push("escaped-panic".into());
+                }
+                m.values().for_each(|x| kinds(x, out));
+            }
+            Value::Array(a) => a.iter().for_each(|x| kinds(x, out)),
+            _ => {}
+        }
+    }
+    let mut ks = Vec::new();
+    kinds(v, &mut ks);
+    for k in ks {
+        run.observe("error_kinds_at_locations", &k);
+    }
+    run.observe("calls", &c.name());
+}
+
+// ------------------------------------------------------------------ documented results
+
+/// (call, values, sharing classes) — see `build_table` for the documents.
+const DOCUMENTED: &[(&str, &str, &str)] = &[
+    ("ok-shared-rc", r#"["x","x","y","y","plain","x","y"]"#, "[0,0,1,1,2,3,1]"),
+    ("ok-shared-arc", "[[1,2],[1,2],[1,2]]", "[0,0,1,0]"),
+    ("ok-recursive", r#"["Aurelian","Aurelian"]"#, "[0,0]"),
+    ("probe-reuse-id1-value", r#"["other","other","more","z"]"#, "[0,0,1,2]"),
+    ("probe-reuse-id1-type", "[7,7,7]", "[0,0,1]"),
+    ("from-multiple-anchors", r#"["x","x","y","y","x"]"#, "[0,0,1,1,2]"),
+];
+
+// ------------------------------------------------------------------ call sets
+
+fn core_calls() -> Vec<Call> {
+    let mut v: Vec<Call> = table().iter().enumerate().filter(|(_, b)| b.core).map(|(i, _)| Call::Base(i)).collect();
+    let idx = |name: &str| Call::Base(table().iter().position(|b| b.name == name).expect("table name"));
+    // nested members of the core alphabet
+    v.push(Call::Nest(0, 0, vec![idx("ok-shared-rc")]));
+    v.push(Call::Nest(1, 0, vec![idx("fail-in-anchored-node")]));
+    v.push(Call::Nest(2, 0, vec![idx("probe-missing-field")]));
+    v.push(Call::Nest(0, 0, vec![idx("panic-mid-document")]));
+    v
+}
+
+fn all_base() -> Vec<Call> {
+    (0..table().len()).map(Call::Base).collect()
+}
+
+fn random_call(rng: &mut Rng, core: &[Call], depth: usize) -> Call {
+    let n = table().len();
+    if depth < 2 && rng.chance(1, 4) {
+        let k = rng.below(NEST_KINDS.len());
+        let e = if k == 0 && rng.chance(1, 2) { rng.below(ENTRIES.len()) } else { 0 };
+        let len = rng.below(4);
+        let inner = (0..len).map(|_| random_call(rng, core, depth + 1)).collect();
+        Call::Nest(k, e, inner)
+    } else if rng.chance(2, 3) {
+        rng.pick(core).clone()
+    } else {
+        Call::Base(rng.below(n))
+    }
+}
+
+// ------------------------------------------------------------------ child process (hash seeds per process)
+
+fn child_calls() -> Vec<Call> {
+    let mut v = all_base();
+    v.extend(core_calls().into_iter().filter(|c| matches!(c, Call::Nest(..))));
+    v
+}
+
+fn child_main() -> ! {
+    let outs: Vec<Value> = child_calls().iter().map(|c| fresh(|| exec(c))).collect();
+    println!("{}", Value::Array(outs));
+    std::process::exit(0);
+}
+
+fn check_children(run: &Run, n: usize) {
+    let exe = match std::env::current_exe() {
+        Ok(e) => e,
+        Err(_) => {
+            run.inconclusive("child process: current_exe unavailable");
+            return;
+        }
+    };
+    let calls = child_calls();
+    let results: Mutex<Vec<Option<Vec<Value>>>> = Mutex::new(Vec::new());
+    par_range(n, |_| {
+        let r = vcore::obs::run_child(&exe, &["child-baselines".to_string()], None, None, None, None, 300);
+        let parsed = match r {
+            Ok(o) if !o.timed_out && o.exit_code == Some(0) => serde_json::from_str::<Value>(o.stdout.trim()).ok().and_then(|v| v.as_array().cloned()),
+            _ => None,
+        };
+        results.lock().unwrap().push(parsed);
+    });
+    for r in results.into_inner().unwrap() {
+        let Some(outs) = r else {
+            run.inconclusive("child process did not deliver baselines (timeout / crash / unreadable output)");
+            continue;
+        };
+        if outs.len() != calls.len() {
+            run.inconclusive("child process delivered a different number of baselines");
+            continue;
+        }
+        run.count("child_processes", 1);
+        for (c, v) in calls.iter().zip(outs.iter()) {
+            run.eval();
+            let b = baseline(c);
+            if &b != v {
+                report(run,
+                    &format!("C15:nondeterministic-across-processes:{}:{}", c.name(), diff_path(&b, v).unwrap_or_default()),
+                    json!({"phase": "repeat", "call": c.enc(), "name": c.name()}),
+                    format!("same call in two processes: {b} | {v}"),
+                );
+            }
+        }
+    }
+}
+
+// ------------------------------------------------------------------ enumeration helpers
+
+/// i-th history of length `len` over an alphabet of `a` symbols (mixed radix).
+fn nth_history(alphabet: &[Call], len: usize, mut i: usize) -> Vec<Call> {
+    let a = alphabet.len();
+    let mut h = Vec::with_capacity(len);
+    for _ in 0..len {
+        h.push(alphabet[i % a].clone());
+        i /= a;
+    }
+    h
+}
+
+fn main() {
+    if std::env::args().nth(1).as_deref() == Some("child-baselines") {
+        child_main();
+    }
+    let explore = std::env::args().any(|a| a == "explore");
+    let run = Run::from_args("C15");
+
+    if let Some(rep) = run.is_replay() {
+        let case = &rep["case"];
+        match case["phase"].as_str().unwrap_or("") {
+            "nested" => {
+                if let Some(c) = parse_list(case["call"].as_str().unwrap_or("")).and_then(|v| v.into_iter().next()) {
+                    check_nested(&run, &c);
+                }
+            }
+            "repeat" => {
+                if let Some(c) = parse_list(case["call"].as_str().unwrap_or("")).and_then(|v| v.into_iter().next()) {
+                    check_repeat(&run, &c, 8);
+                    check_children(&run, 2);
+                }
+            }
+            _ => {
+                let h: Option<Vec<Call>> = case["history"]
+                    .as_array()
+                    .map(|a| a.iter().filter_map(|s| parse_list(s.as_str().unwrap_or("")).and_then(|v| v.into_iter().next())).collect());
+                if let Some(h) = h {
+                    check_history(&run, &h, "replay");
+                }
+            }
+        }
+        run.finish(Finish::new("replay"));
+    }
+
+    let tier = run.tier;
+    let core = core_calls();
+    let base = all_base();
+
+    // ---- phase 0: baselines, determinism
+    for c in base.iter().chain(core.iter()) {
+        let b = baseline(c);
+        run.eval();
+        observe_outcome(&run, c, &b);
+        if explore {
+            println!("{:40} {}", c.name(), b);
+        }
+        if b.get("lib_panic").is_some() {
+            report(&run,
+                &format!("C15:panic:{}", vcore::obs::panic_site(b["lib_panic"].as_str().unwrap_or(""))),
+                json!({"phase": "history", "history": [c.enc()], "index": 0}),
+                format!("{b}"),
+            );
+        }
+    }
+    // The differential oracle is blind to a defect that changes baseline and history alike (state
+    // carried from one node to the next *within* a call). For the successful parses whose result is
+    // pinned by the documentation of the anchor wrappers (an alias shares the allocation of its
+    // anchor, anything else is a separate allocation) the baseline itself is checked.
+    for (name, values, cls) in DOCUMENTED {
+        let c = Call::Base(table().iter().position(|b| b.name == *name).expect("documented call"));
+        let b = baseline(&c);
+        let exp_v: Value = serde_json::from_str(values).expect("documented values");
+        let exp_c: Value = serde_json::from_str(cls).expect("documented classes");
+        run.count("documented_baselines_checked", 1);
+        if b["ok"]["values"] != exp_v || b["ok"]["classes"] != exp_c {
+            report(&run,
+                &format!("C15:within-call-state:{name}"),
+                json!({"phase": "history", "history": [c.enc()], "names": [name], "index": 0}),
+                format!("first call on a fresh thread gave {b}; documented result: values {exp_v} sharing {exp_c}"),
+            );
+        }
+    }
+    run.count("table_calls", base.len() as u64);
+    run.count("core_alphabet", core.len() as u64);
+    {
+        let all: Vec<Call> = base.iter().chain(core.iter()).cloned().collect();
+        par_range(all.len(), |i| check_repeat(&run, &all[i], tier.pick(3, 10)));
+    }
+    check_children(&run, tier.pick(2, 6));
+
+    // ---- phase 1: nested transparency sweep
+    let nested_len = tier.pick(1, 2);
+    let mut nested_cases: Vec<Call> = Vec::new();
+    for k in 0..NEST_KINDS.len() {
+        nested_cases.push(Call::Nest(k, 0, vec![]));
+        // every call of the table and of the core alphabet (so depth 2 occurs) as the single nested call
+        for c in base.iter().chain(core.iter().filter(|c| matches!(c, Call::Nest(..)))) {
+            nested_cases.push(Call::Nest(k, 0, vec![c.clone()]));
+        }
+        // every sequence of core calls up to the bound
+        for len in 2..=(nested_len + 1) {
+            let total = core.len().pow(len as u32);
+            for i in 0..total {
+                nested_cases.push(Call::Nest(k, 0, nth_history(&core, len, i)));
+            }
+        }
+    }
+    // outer call through every entry point
+    let i_ok = base[0].clone();
+    let i_fail = Call::Base(table().iter().position(|b| b.name == "fail-in-anchored-node").unwrap());
+    for e in 1..ENTRIES.len() {
+        nested_cases.push(Call::Nest(0, e, vec![]));
+        nested_cases.push(Call::Nest(0, e, vec![i_ok.clone()]));
+        nested_cases.push(Call::Nest(0, e, vec![i_fail.clone()]));
+    }
+    run.count("nested_cases", nested_cases.len() as u64);
+    par_range(nested_cases.len(), |i| {
+        let c = &nested_cases[i];
+        check_nested(&run, c);
+        if explore && i < 200 {
+            println!("NEST {:50} {}", c.enc(), baseline(c));
+        }
+        if i % 97 == 0 {
+            run.sample(|| json!({"nested": c.enc(), "name": c.name(), "inner": hist_names(match c { Call::Nest(_, _, v) => v, _ => &[] }), "outcome": baseline(c)}));
+        }
+    });
+
+    // ---- phase 2: exhaustive histories over the core alphabet
+    let max_len = tier.pick(3, 4);
+    for len in 1..=max_len {
+        let total = core.len().pow(len as u32);
+        run.count(&format!("exhaustive_histories_len{len}"), total as u64);
+        par_range(total, |i| {
+            let h = nth_history(&core, len, i);
+            check_history(&run, &h, "exhaustive");
+            if i % 4001 == 7 {
+                run.sample(|| json!({"history": hist_names(&h)}));
+            }
+        });
+    }
+    // every ordered pair over the full table + nested entry-point calls (quick); triples with a core middle (thorough)
+    let mut full: Vec<Call> = base.clone();
+    full.extend(core.iter().filter(|c| matches!(c, Call::Nest(..))).cloned());
+    for e in 1..ENTRIES.len() {
+        full.push(Call::Nest(0, e, vec![i_ok.clone()]));
+    }
+    {
+        let total = full.len() * full.len();
+        run.count("exhaustive_pairs_full_table", total as u64);
+        par_range(total, |i| {
+            let h = nth_history(&full, 2, i);
+            check_history(&run, &h, "pairs");
+        });
+    }
+
+    // thorough: every triple (a, m, b) with a, b over the full table and m over the core alphabet
+    if tier == Tier::Thorough {
+        let total = full.len() * core.len() * full.len();
+        run.count("exhaustive_triples_full_core_full", total as u64);
+        par_range(total, |i| {
+            let a = &full[i % full.len()];
+            let m = &core[(i / full.len()) % core.len()];
+            let b = &full[i / (full.len() * core.len())];
+            check_history(&run, &[a.clone(), m.clone(), b.clone()], "triples");
+        });
+    }
+
+    // an iterator held open across every other call, then resumed
+    {
+        let held = Call::Base(table().iter().position(|b| b.name == "iter-held-open").unwrap());
+        let resume = Call::Base(table().iter().position(|b| b.name == "iter-resume-second-doc").unwrap());
+        run.count("held_iterator_histories", full.len() as u64);
+        par_range(full.len(), |i| {
+            check_history(&run, &[held.clone(), full[i].clone(), resume.clone()], "held-iterator");
+        });
+    }
+
+    // ---- phase 3: random histories up to length 20
+    let n_random = tier.pick(12_000, 150_000);
+    par_range(n_random, |i| {
+        let mut rng = Rng::stream(run.seed, i as u64);
+        let len = rng.range(2, 20);
+        let h: Vec<Call> = (0..len).map(|_| random_call(&mut rng, &core, 0)).collect();
+        run.max("max_random_history_len", h.len() as u64);
+        run.max("max_nest_depth", h.iter().map(|c| c.depth()).max().unwrap_or(0) as u64);
+        check_history(&run, &h, "random");
+        // nested transparency for the random nested calls too
+        for c in h.iter().filter(|c| matches!(c, Call::Nest(..))).take(2) {
+            check_nested(&run, c);
+        }
+        if i % 499 == 0 {
+            run.sample(|| json!({"random_history": hist_names(&h)}));
+        }
+    });
+    run.count("random_histories", n_random as u64);
+    run.count("distinct_calls_with_baseline", baselines().lock().unwrap().len() as u64);
+
+    let scope = format!(
+        "every history of length <= {max_len} over the core alphabet of {} calls ({} base calls + 4 nested calls), each on a fresh thread; every ordered pair over the full table of {} calls (all entry points; thorough: also every triple full x core x full); an iterator held open across each call of the full table and then resumed; nested: every outer kind ({}) x every single table call and every sequence of <= {} core calls as the nested list, outer kind 'plain' through all {} entry points",
+        core.len(),
+        core.len() - 4,
+        full.len(),
+        NEST_KINDS.len(),
+        nested_len + 1,
+        ENTRIES.len()
+    );
+    let fin = Finish::new(
+        "a history counts as non-trivial when it has >= 2 calls and >= 1 of them fails, nests, panics (caught visitor panic) or abandons an iterator (judged from the call's own baseline outcome); a nested-transparency pair counts when the nested list is non-empty; distinct by hash of the encoded history",
+    )
+    .exhaustive(scope)
+    .assume("baseline = the call executed as the first and only call on a freshly spawned thread of the same process")
+    .assume("outcomes compare values, error kind + line/column + message text, pointer-sharing partitions, budget reports, emitted text; never hash-map iteration order or addresses")
+    .assume("the constant result substituted for a nested call is that call's own fresh-thread outcome")
+    .min_nontrivial(if tier == Tier::Quick { 5_000 } else { 100_000 });
+    run.finish(fin);
+}
